@@ -155,6 +155,14 @@ class Interp:
                 if isinstance(v, X) and v.constval() is not None: return v
             except Exception:
                 pass
+        # a machine constant: np.finfo(<type>).eps / .tiny / ...
+        if isinstance(node, ast.Attribute) and isinstance(node.value, ast.Call) and ast.unparse(node.value.func).split(".")[-1] == "finfo":
+            try:
+                st0 = St(); st0.env.update(g)
+                v = s.eval(node, st0)
+                if isinstance(v, X) and v.constval() is not None: return v
+            except Exception:
+                pass
         # a literal table (dict / tuple / list) of constants, module-level functions and lambdas, e.g. a dispatch table of kernels or of formulas
         def table_ok(n):
             if isinstance(n, ast.Dict):
